@@ -203,6 +203,63 @@ class CoopCondition:
         return [r.tid for r in self._waiters]
 
 
+def yield_point():
+    """an explicit scheduling point inside a controlled thread (no-op elsewhere): the thread parks as if it wanted a
+    mutex nobody holds, so the controller may run any other thread before it continues"""
+    rec = _current()
+    if rec is None or rec.ctl.aborted:
+        return
+    lk = getattr(_TLS, "ylock", None)
+    if lk is None:
+        lk = _TLS.ylock = CoopRLock()
+    lk.acquire()
+    lk.release()
+
+
+@contextmanager
+def preemptible(pred, lines=False):
+    """inside a controlled thread: every Python function CALL (and, with lines=True, every source line) executed in
+    a code object whose file name satisfies `pred` becomes a scheduling point (sys.settrace of this thread only).
+    This exposes interleavings BELOW the lock level, e.g. two readers inside the same read section."""
+    import sys
+
+    def tracer(frame, event, arg):
+        if not pred(frame.f_code.co_filename):
+            return None
+        if event == "call":
+            yield_point()
+            return tracer if lines else None
+        if event == "line" and lines:
+            yield_point()
+        return tracer
+
+    old = sys.gettrace()
+    sys.settrace(tracer)
+    try:
+        yield
+    finally:
+        sys.settrace(old)
+
+
+def one_preemption_schedules(run_once, n_threads=2, max_k=400):
+    """all schedules of the form: thread a runs k steps, then the others run to completion in tid order, then a
+    finishes - for every a and every k up to a's own length.  Yields (a, k, RunResult)."""
+    for a in range(n_threads):
+        k = 0
+        while k <= max_k:
+            def choose(ctl, en, a=a, k=k):
+                own = sum(1 for t in ctl.schedule if t == a)
+                if own < k and a in en:
+                    return a
+                others = [t for t in en if t != a]
+                return others[0] if others else a
+            res = run_once(choose)
+            yield a, k, res
+            if sum(1 for t in res.schedule if t == a) < k:      # a finished before using k steps: no longer schedules
+                break
+            k += 1
+
+
 @contextmanager
 def patched(module=None, rlock=CoopRLock, condition=CoopCondition):
     """replace module.RLock / module.Condition by the cooperative doubles; restore on exit"""
